@@ -149,14 +149,19 @@ class CollationManager(context_class_base):
             try:
                 locale.setlocale(locale.LC_COLLATE, self.lc_collate)
             except locale.Error:
-                if not self.fallback:
-                    self._current_lc_collate = None
-                    _locale_collate_lock.release()
+                if self.fallback:
+                    try:
+                        locale.setlocale(locale.LC_COLLATE, 'en_US.UTF-8')
+                    except locale.Error:
+                        pass  # also the fallback locale is not available
+                    else:
+                        return self
 
-                    msg = f"Unsupported collation {self.collation!r}"
-                    raise xpath_error('FOCH0002', msg, self.token) from None
+                self._current_lc_collate = None
+                _locale_collate_lock.release()
 
-                locale.setlocale(locale.LC_COLLATE, 'en_US.UTF-8')
+                msg = f"Unsupported collation {self.collation!r}"
+                raise xpath_error('FOCH0002', msg, self.token) from None
 
         return self
 
